@@ -19,6 +19,7 @@ from .sym import (VInt, VBool, VStr, VAtom, VConst, VTuple, VObj, VList, VDict, 
 
 import os
 TRACE = bool(os.environ.get("PYVC_TRACE"))
+RLIMIT_PER_MS = int(os.environ.get("PYVC_RLIMIT_PER_MS", "4000"))   # z3 resource units per "ms" of budget
 
 
 # ----------------------------------------------------------------------------- control signals
@@ -185,7 +186,7 @@ class Interp:
         self.explorer = Explorer(max_paths=contract.max_paths if contract else 4000)
         self.obls = {}              # (kind, text) -> Obligation
         self.assumptions = set()
-        self.timeout_ms = timeout_ms
+        self.timeout_ms = timeout_ms * (getattr(contract, "budget", 1) or 1)
         self.solver_time = 0.0
         self.solver_calls = 0
         self.reachable_exits = 0
@@ -210,7 +211,11 @@ class Interp:
         prefix = ex.decisions
         if self.S is None:
             self.S = z3.Solver()
-            self.S.set("timeout", self.timeout_ms)
+            # the budget that decides a verdict is z3's resource counter (deterministic, the same
+            # whether the machine is idle or all cores are busy); the wall-clock timeout is only a
+            # far backstop
+            self.S.set("timeout", self.timeout_ms * 6)
+            self.S.set("rlimit", RLIMIT_PER_MS * self.timeout_ms)
             self.str_arrays = {}
             self.base_scope = {}
             self.theory_stack = []
@@ -273,8 +278,11 @@ class Interp:
         self.S.add(fact)
         self.world.theory_saturate(self, [fact])
 
-    def _check(self, extra, use_q=False):
+    def _check(self, extra, use_q=False, budget=1.0):
         t0 = time.time()
+        if budget != getattr(self, "_budget", 1.0):
+            self.S.set("rlimit", int(RLIMIT_PER_MS * self.timeout_ms * budget))
+            self._budget = budget
         # theory instances are valid facts: add them permanently, outside the push scope
         self.world.theory_saturate(self, extra, transient=True)
         self.S.push()
@@ -299,7 +307,8 @@ class Interp:
     def feasible(self, extra=()):
         if self.silent or (not extra and not self.explorer.at_frontier()):
             return True   # replaying: an earlier run got past this point
-        r, _ = self._check(list(extra))
+        # feasibility is only pruning (unknown counts as feasible): a tenth of the budget is enough
+        r, _ = self._check(list(extra), budget=0.1)
         return r != z3.unsat
 
     def decide(self, cond):
@@ -355,9 +364,14 @@ class Interp:
             ob.paths -= 1
             return True   # replaying: this instance was decided by the run that explored the prefix
         t0 = time.time()
-        r, model = self._check([z3.Not(goal)])
-        if r != z3.unsat and self.qfacts:
-            r, model = self._check([z3.Not(goal)], use_q=True)
+        # quantified assumptions of the path are part of every obligation's hypothesis; many
+        # goals do not need them, so a quarter of the budget is first spent without them
+        if self.qfacts:
+            r, model = self._check([z3.Not(goal)], budget=0.03)
+            if r != z3.unsat:
+                r, model = self._check([z3.Not(goal)], use_q=True)
+        else:
+            r, model = self._check([z3.Not(goal)])
         ob.time += time.time() - t0
         if r == z3.unsat:
             return True
@@ -763,6 +777,7 @@ class Interp:
     def ev_JoinedStr(self, node):
         total = z3.IntVal(0)
         concrete = []
+        exact_len = True
         for part in node.values:
             if isinstance(part, ast.Constant):
                 total = total + len(part.value)
@@ -770,6 +785,13 @@ class Interp:
                     concrete.append(part.value)
             else:
                 v = self.ev(part.value)
+                if isinstance(v, VStr) and part.format_spec is None and part.conversion == -1:
+                    total = total + v.length()
+                elif isinstance(v, VAtom) and part.format_spec is None and part.conversion == -1 \
+                        and z3.is_int_value(z3.simplify(v.t)) and sym.atom_obj(v) is None:
+                    total = total + 4      # str(None)
+                else:
+                    exact_len = False
                 if concrete is not None and part.format_spec is None and part.conversion == -1 \
                         and isinstance(v, VStr) and v.lit is not None:
                     concrete.append(v.lit)
@@ -783,6 +805,8 @@ class Interp:
         if concrete is not None:
             return VStr(lit="".join(concrete))
         s = self.fresh_str("fstr")
+        if exact_len:
+            self.assume(s.hi == z3.simplify(total))   # an f-string of str parts: lengths add up
         return s
 
     def str_of(self, v, node):
@@ -815,6 +839,11 @@ class Interp:
             return VBool(z3.If(c, a.t, b.t))
         if isinstance(a, VAtom) and isinstance(b, VAtom):
             return VAtom(z3.If(c, a.t, b.t))
+        if isinstance(a, VStr) and isinstance(b, VStr):
+            va, vb = sym.as_view(a), sym.as_view(b)
+            j = z3.Int(self.namer.fresh("j"))
+            arr = z3.Lambda([j], z3.If(c, z3.Select(va.arr, va.lo + j), z3.Select(vb.arr, vb.lo + j)))
+            return VStr(arr=arr, lo=z3.IntVal(0), hi=z3.If(c, va.length(), vb.length()))
         raise Unsupported("merge of non-scalar values in a specification expression")
 
     def ev_BoolOp(self, node):
@@ -851,7 +880,9 @@ class Interp:
             return v.t
         if isinstance(v, VBool):
             return z3.If(v.t, 1, 0)
-        raise Unsupported(f"integer expected: {_src(node)} = {v!r}")
+        if self.st.spec and isinstance(v, (VAtom, VOpaque)):
+            return z3.Int(self.namer.fresh("undef"))   # undefined operand inside a guarded clause
+        raise Unsupported(f"integer expected: {_src(node) if node is not None else '?'} = {v!r}")
 
     def ev_BinOp(self, node):
         a = self.ev(node.left)
@@ -1013,6 +1044,8 @@ class Interp:
                 return z3.BoolVal(False)
         if isinstance(a, VFloat) or isinstance(b, VFloat):
             return self.world.float_cmp(self, ast.Eq(), a, b, node)
+        if self.st.spec and (isinstance(a, VOpaque) or isinstance(b, VOpaque)):
+            return z3.Bool(self.namer.fresh("undef_eq"))   # undefined operand in a guarded clause
         r = self.world.equal_ext(self, a, b, node)
         if r is not None:
             return r
@@ -1022,6 +1055,12 @@ class Interp:
         if isinstance(container, VStr) and isinstance(item, VStr):
             if container.lit is not None:
                 return sym.str_in_lit(item, container.lit)
+            if item.lit is not None and len(item.lit) == 1:
+                # a single character occurs in s iff some position holds it
+                vv = sym.as_view(container)
+                j = z3.Int(self.namer.fresh("j"))
+                return z3.Exists([j], z3.And(vv.lo <= j, j < vv.hi,
+                                             z3.Select(vv.arr, j) == ord(item.lit)))
             raise Unsupported("substring test against a non-literal string")
         if isinstance(container, VTuple):
             return sor(*[self.equal(item, x, node) for x in container.items])
@@ -1231,6 +1270,8 @@ class Interp:
         raise Unsupported(f"slice of {v!r}")
 
     def index(self, v, idx, node):
+        if self.st.spec and (isinstance(idx, (VAtom, VOpaque)) or isinstance(v, VOpaque)):
+            return VOpaque("undefined subscript in a specification")   # total inside clauses
         if isinstance(v, VStr):
             i = self.as_int(idx, node)
             n = v.length()
@@ -1331,6 +1372,39 @@ class Interp:
             return VFunc(None, builtin="lambda", name="<lambda>", recv=VConst((a, dict(self.st.env))))
         return self.ev(a)
 
+    def ev_Await(self, node):
+        """`await e` inside a coroutine under contract: e is evaluated (a call of an async function
+        yields an opaque awaitable without running it); then other tasks may run - every field of
+        every object that this activation did not create, and every ghost counter, is arbitrary
+        afterwards - and the await either raises some Exception or yields some value."""
+        arg_len = None
+        if isinstance(node.value, ast.Call) and isinstance(node.value.func, ast.Attribute) \
+                and node.value.func.attr == "gather" and len(node.value.args) == 1:
+            a0 = self.ev(node.value.args[0])
+            if isinstance(a0, VList):
+                arg_len = self.st.lists[a0.oid].len
+        self.ev(node.value)
+        self.world.trusted_used.add(
+            "await: any Exception (asyncio.CancelledError, a BaseException, is not modelled) or any "
+            "value; objects not created by the activation and ghost counters are havocked; the "
+            "interleaving of tasks itself is not explored (A3)")
+        st = self.st
+        for key in list(st.heap):
+            if key[0] not in self.fresh_objs:
+                st.heap[key] = self.havoc_like(st.heap[key], str(key[1]))
+        for g in list(st.ghost):
+            if isinstance(g, str) and isinstance(st.ghost[g], VInt):
+                st.ghost[g] = VInt(z3.Int(self.namer.fresh("ghost_" + g)))
+        if self.choose(2, "await outcome") == 1:
+            raise _Raise(VExc(Exception, origin=_src(node), okind="RAISES", exact=False,
+                              lineno=getattr(node, "lineno", 0)))
+        r = self.fresh_dyn("awaited")
+        if arg_len is not None:
+            self.world.trusted_used.add("await <helpers>.gather(xs): a list with one result per "
+                                        "awaitable, in order (len == len(xs))")
+            self.sadd(z3.And(sym.tag(r.t) == sym.TAGS["list"], sym.v_len(r.t) == arg_len))
+        return r
+
     def ev_Lambda(self, node):
         return VFunc(None, builtin="lambda", name="<lambda>", recv=VConst((node, dict(self.st.env))))
 
@@ -1415,6 +1489,12 @@ class Interp:
             if c is not None and c.pure_spec is not None:
                 return c.pure_spec(self, args, kwargs)
             # pure helper: inline even in spec mode
+        if isinstance(ref.node, ast.AsyncFunctionDef):
+            # calling a coroutine function runs nothing: the result is an awaitable
+            self.world.trusted_used.add("a call of an `async def` function returns an awaitable "
+                                        "without running its body")
+            v = VOpaque("coroutine " + ref.short)
+            return v
         if c is not None and not (ref.qual == self.fnref.qual and self.depth == 0 and False):
             return self.call_by_contract(ref, c, args, kwargs, node)
         if ref.node is None:
@@ -1784,9 +1864,11 @@ class Interp:
                 bvs.append(bv)
                 saved[var.id] = st.env.get(var.id)
                 st.env[var.id] = VInt(bv)
+            self.bound_vars = getattr(self, "bound_vars", []) + bvs
             try:
                 p = self.truth(self.ev(body))
             finally:
+                self.bound_vars = self.bound_vars[:-len(bvs)] if bvs else self.bound_vars
                 for k2, v2 in saved.items():
                     if v2 is None:
                         st.env.pop(k2, None)
@@ -1817,9 +1899,11 @@ class Interp:
             bv = z3.Int(self.namer.fresh(var.id))
             saved = st.env.get(var.id)
             st.env[var.id] = VInt(bv)
+            self.bound_vars = getattr(self, "bound_vars", []) + [bv]
             try:
                 p = self.truth(self.ev(body))
             finally:
+                self.bound_vars = self.bound_vars[:-1]
                 if saved is None:
                     st.env.pop(var.id, None)
                 else:
@@ -2252,7 +2336,14 @@ class Interp:
         if lc is None:
             return
         for clause in lc.get("invariant", ()):
-            g = self.spec_eval(clause, self.st.env, ref, extra=extra)
+            try:
+                g = self.spec_eval(clause, self.st.env, ref, extra=extra)
+            except Unsupported as e:
+                if "unknown name" in str(e) and _never_bound(self.fnref.node, str(e)):
+                    # the invariant talks about a local the function no longer has
+                    self.oblige(kind, f"loop {ordinal}: {clause}", False, self.cur_line)
+                    continue
+                raise
             self.oblige(kind, f"loop {ordinal}: {clause}", g, self.cur_line)
 
     def assume_invariants(self, lc, ref, extra=None):
@@ -2388,6 +2479,10 @@ class Interp:
                                                    extra={"_i": VInt(i), "result": r.val})
                             except Unsupported as e:
                                 if "unknown name" in str(e):
+                                    if _never_bound(self.fnref.node, str(e)):
+                                        self.oblige("RET-IN-LOOP", f"loop {ordinal}: {clause} [{e}: "
+                                                    "the function no longer binds it]", False,
+                                                    self.cur_line)
                                     continue
                                 raise
                             self.oblige("RET-IN-LOOP", f"loop {ordinal}: {clause}", g, self.cur_line)
@@ -2398,6 +2493,9 @@ class Interp:
                             g = self.spec_eval(clause, self.st.env, ref, extra={"_i": VInt(i)})
                         except Unsupported as e:
                             if "unknown name" in str(e):
+                                if _never_bound(self.fnref.node, str(e)):
+                                    self.oblige("STEP", f"loop {ordinal}: {clause} [{e}: the "
+                                                "function no longer binds it]", False, self.cur_line)
                                 continue   # mentions a local that is not bound on this path
                             raise
                         self.oblige("STEP", f"loop {ordinal}: {clause}", g, self.cur_line)
@@ -2408,6 +2506,9 @@ class Interp:
                             g = self.spec_eval(clause, self.st.env, ref, extra={"_i": VInt(i)})
                         except Unsupported as e:
                             if "unknown name" in str(e):
+                                if _never_bound(self.fnref.node, str(e)):
+                                    self.oblige("ITER", f"loop {ordinal}: {clause} [{e}: the "
+                                                "function no longer binds it]", False, self.cur_line)
                                 continue
                             raise
                         self.oblige("ITER", f"loop {ordinal}: {clause}", g, self.cur_line)
@@ -2447,6 +2548,26 @@ class Interp:
     def ex_ImportFrom(self, node):
         ref = self.frames[-1].get("ref") or self.fnref
         self.world.import_from(self, node, ref)
+
+
+def _never_bound(fnode, msg):
+    """True when the `unknown name X` of msg is a name the function binds nowhere (so a clause
+    mentioning it cannot be skipped as 'not bound on this path': the local no longer exists)."""
+    name = msg.split("unknown name", 1)[1].strip().split()[0] if "unknown name" in msg else None
+    if not name:
+        return False
+    for x in ast.walk(fnode):
+        if isinstance(x, ast.Name) and x.id == name and isinstance(x.ctx, ast.Store):
+            return False
+        if isinstance(x, ast.arg) and x.arg == name:
+            return False
+        if isinstance(x, (ast.FunctionDef, ast.AsyncFunctionDef, ast.ClassDef)) and x.name == name:
+            return False
+        if isinstance(x, ast.ExceptHandler) and x.name == name:
+            return False
+        if isinstance(x, ast.alias) and (x.asname or x.name) == name:
+            return False
+    return True
 
 
 def _has_quantifier(t):
